@@ -163,7 +163,7 @@ class RayMeshIntersector:
         if multiple_hits or return_locations:
             # how much to offset ray to transport to the other side of face
             distance = np.clip(
-                _ray_offset_factor * self._scale, _ray_offset_floor, np.inf
+                _ray_offset_factor * self.mesh.scale, _ray_offset_floor, np.inf
             )
             ray_offsets = ray_directions * distance
 
